@@ -630,7 +630,7 @@ pub struct Group {
     pub points: Vec<Point>,
 }
 
-const CTXS: [&str; 5] = ["rt", "global", "local", "nested", "nested-local"];
+const CTXS: [&str; 7] = ["rt", "global", "local", "nested", "nested-local", "array-item-1", "array-item-2"];
 
 fn indent(body: &str, extra: usize) -> String {
     let pad = "    ".repeat(extra);
@@ -646,6 +646,13 @@ impl Group {
         s.push('\n');
         for (k, p) in self.points.iter().enumerate() {
             s.push_str(&format!("g{k} :: comptime {{\n{}}};\n", p.body));
+            // the same block three times as the items of a constant global array (items other than
+            // the first sit at multiples of the item type's STRIDE, which is larger than its size
+            // for structs / tagged unions with tail padding; seeded change C04_1)
+            if !matches!(p.ty, CT::Type) && !p.ty.is_str(&self.defs) {
+                let b1 = indent(&p.body, 1);
+                s.push_str(&format!("GA{k}T :: {};\nga{k} :: GA{k}T.[\n    comptime {{\n{b1}    }},\n    comptime {{\n{b1}    }},\n    comptime {{\n{b1}    }},\n];\n", p.ty.capy()));
+            }
         }
         s.push_str("\nmain :: () {\n");
         for (k, p) in self.points.iter().enumerate() {
@@ -662,6 +669,11 @@ impl Group {
             s.push_str(&format!(
                 "    {{\n        core.println(\"@ {k} nested-local\");\n        x := comptime {{\n            y := comptime {{\n{b2}            }};\n            y\n        }};\n{sh}    }}\n"
             ));
+            if !matches!(p.ty, CT::Type) && !p.ty.is_str(&self.defs) {
+                for i in 1..=2 {
+                    s.push_str(&format!("    {{\n        core.println(\"@ {k} array-item-{i}\");\n        x := ga{k}[{i}];\n{sh}    }}\n"));
+                }
+            }
         }
         s.push_str("    core.println(\"@ end\");\n    fflush(0);\n}\n");
         s
@@ -1086,6 +1098,11 @@ pub fn run(tier: &str, seed: u64, widen: bool) -> Report {
                 rep.sample(json!({"stream": "e2e", "type": p.ty.capy(), "body": p.body, "runtime": rt, "comptime-global": s.get(&(k, "global".to_string()))}));
             }
             for ctx in &CTXS[1..] {
+                // a constant global array of `str` crashes the built program even without comptime
+                // (known finding `global-array-of-str`, probed separately): no array items for str / type
+                if ctx.starts_with("array-item") && (matches!(p.ty, CT::Type) || p.ty.is_str(&g.defs)) {
+                    continue;
+                }
                 let ct = s.get(&(k, ctx.to_string())).cloned().unwrap_or_else(|| vec!["<missing>".into()]);
                 let same = rt.len() == ct.len()
                     && rt.iter().zip(ct.iter()).all(|(a, b)| a == b || (is_nan_line(&leaf_float(&p.ty), a) && is_nan_line(&leaf_float(&p.ty), b)));
@@ -1127,6 +1144,7 @@ pub fn run(tier: &str, seed: u64, widen: bool) -> Report {
     }
     rep.traces_validated = rep.evaluations;
     stream_effects(&mut rep);
+    probe_global_str_array(&mut rep);
     stream_widen(&mut rep, &mut rng, tier == "thorough" || widen);
     rep
 }
@@ -1230,6 +1248,25 @@ fn stream_effects(rep: &mut Report) {
             json!(problems),
             json!({"compile": "each CT-* marker once", "run": expected_run}),
             "a comptime block's side effects must happen while compiling, once, and not when the program runs",
+        );
+    }
+}
+
+/// Known finding: the data object of a constant global array of `str` holds the characters of the
+/// items inline where the readers expect pointers, with or without comptime blocks.
+fn probe_global_str_array(rep: &mut Report) {
+    let src = "core :: #mod(\"core\");\nga :: str.[ comptime { \"hello\" }, comptime { \"world\" } ];\nmain :: () {\n    core.println(ga[1]);\n}\n";
+    let out = &e2e::run_all(&[Program::single(src)], e2e::Limits::default())[0];
+    rep.case(Some("probe|global-array-of-str".into()));
+    rep.hit("probe:global-array-of-str");
+    let got = if out.built && out.run_status == Some(0) { out.stdout().trim().to_string() } else { format!("{} {}", out.run_summary(), errors_of(out)) };
+    if got != "world" {
+        rep.oracle_fail(
+            "global-array-of-str",
+            json!({"stream": "probe", "source": src}),
+            json!(got),
+            json!("world"),
+            "an item of a constant global array of comptime `str` blocks does not read back (the same array as a local works)",
         );
     }
 }
